@@ -404,11 +404,26 @@ func checkC07(ctx *Ctx) {
 			ctx.Res.Disagree(Violation{What: fmt.Sprintf("rendezvous workflow exited %d: %s", rr.Exit, tail(rr.Stderr)), Witness: w})
 			return
 		}
-		for _, l := range rr.CmdTrace {
-			if strings.HasPrefix(l, "RDVFAIL") {
-				ctx.Res.Violate(Violation{What: fmt.Sprintf("%d tasks of %d cores fit into %d slots but were never executing simultaneously (%s)", w.k, w.cores, w.max, l), Class: "slots.notconserving", Witness: w})
-				return
+		failed := func(r *RunRes) string {
+			for _, l := range r.CmdTrace {
+				if strings.HasPrefix(l, "RDVFAIL") {
+					return l
+				}
 			}
+			return ""
+		}
+		os.RemoveAll(rr.Dir)
+		if l := failed(rr); l != "" {
+			// the rendezvous waits 4 s at most: confirm on a second and third run that it was not the machine
+			for k := 0; k < 2; k++ {
+				again := RunWorkflow(d, RunOpts{})
+				os.RemoveAll(again.Dir)
+				if again.Exit == 0 && failed(again) == "" {
+					ctx.Res.Count("rendezvous-failure-not-repeated")
+					return
+				}
+			}
+			ctx.Res.Violate(Violation{What: fmt.Sprintf("%d tasks of %d cores fit into %d slots but were never executing simultaneously (%s)", w.k, w.cores, w.max, l), Class: "slots.notconserving", Witness: w})
 		}
 	})
 	// oversize request is rejected at start, no command runs
